@@ -496,13 +496,22 @@ func (w *World) buildSpec() hcldec.Spec {
 		"p":    attr("p", 2),
 		"name": &hcldec.BlockLabelSpec{Index: 0, Name: "name"},
 	}
+	// label name slices as an application may well have built them: with spare
+	// capacity (append, make with a capacity)
+	labelNames := func(n string) []string {
+		if zzsim.Mix(c.SpecSeed, strHash(n))%2 == 0 {
+			return []string{n}
+		}
+		l := make([]string, 0, 4)
+		return append(l, n)
+	}
 	root := hcldec.ObjectSpec{
 		"b0": &hcldec.BlockTupleSpec{TypeName: "b0", Nested: b0},
-		"b1": &hcldec.BlockObjectSpec{TypeName: "b1", LabelNames: []string{"name"}, Nested: b1},
+		"b1": &hcldec.BlockObjectSpec{TypeName: "b1", LabelNames: labelNames("name"), Nested: b1},
 		"kv": &hcldec.BlockAttrsSpec{TypeName: "kv", ElementType: cty.String},
 		"tl": &hcldec.BlockListSpec{TypeName: "tl", Nested: hcldec.ObjectSpec{"s": &hcldec.AttrSpec{Name: "s", Type: cty.String}}},
 		"ts": &hcldec.BlockSetSpec{TypeName: "ts", Nested: hcldec.ObjectSpec{"s": &hcldec.AttrSpec{Name: "s", Type: cty.String}}},
-		"tm": &hcldec.BlockMapSpec{TypeName: "tm", LabelNames: []string{"key"}, Nested: hcldec.ObjectSpec{
+		"tm": &hcldec.BlockMapSpec{TypeName: "tm", LabelNames: labelNames("key"), Nested: hcldec.ObjectSpec{
 			"s": &hcldec.AttrSpec{Name: "s", Type: cty.String}, "key": &hcldec.BlockLabelSpec{Index: 0, Name: "key"}}},
 	}
 	if zzsim.Mix(c.SpecSeed, 77)%4 == 0 {
